@@ -630,6 +630,8 @@ fn interest_name(i: &WakerInterest) -> String {
         WakerInterest::Resume => "Resume".into(),
         WakerInterest::Stop => "Stop".into(),
         WakerInterest::Worker(h) => format!("WK{}", h.idx()),
+        #[allow(unreachable_patterns)]
+        _ => "Other".into(),
     }
 }
 
